@@ -13,11 +13,18 @@ import (
 
 	blake2b "github.com/minio/blake2b-simd"
 
+	"os"
+	"path/filepath"
+
+	"github.com/spf13/afero"
+
 	"dvh/internal/corekit"
 	"dvh/internal/memstore"
 	"dvh/internal/tr"
 
 	"github.com/oneconcern/datamon/pkg/cafs"
+	"github.com/oneconcern/datamon/pkg/core"
+	"github.com/oneconcern/datamon/pkg/storage/localfs"
 )
 
 func init() {
@@ -589,5 +596,108 @@ func c03(c *ctx) error {
 			c.w.Note("restore")
 		}
 		c.w.End()
+		c03Download(c, r, i)
 	})
+}
+
+// c03Download: a bundle with a damaged leaf is downloaded into an object store (the Read path)
+// and into a local directory (the WriteTo/WriterAt path): the download must fail, and whatever
+// the destination holds afterwards must be stored bytes.
+func c03Download(c *ctx, r *tr.Rng, i int) {
+	leaf := r.Pick(64, 100, 4096)
+	env := corekit.NewEnv()
+	if env.CreateRepo("r") != nil {
+		return
+	}
+	tree := map[string][2]uint64{}
+	for j := 0; j < 1+r.Intn(3); j++ {
+		tree[fmt.Sprintf("f%d", j)] = [2]uint64{1 + r.Uint64()%100000, uint64((1+r.Intn(4))*leaf - r.Intn(leaf))}
+	}
+	files := map[string][]byte{}
+	var spec []string
+	for _, k := range c04SortedKeys(tree) {
+		files[k] = tr.GenBytes(tree[k][0], int(tree[k][1]))
+		spec = append(spec, fmt.Sprintf("%s@gen:%d:%d", k, tree[k][0], tree[k][1]))
+	}
+	id, err := env.UploadTree("r", files, uint32(leaf))
+	if err != nil {
+		return
+	}
+	c.w.Case("c03 leaf=%d crc=1 download", leaf)
+	// damage one leaf blob (never a root blob here: those are covered above)
+	keys := env.Blob.SortedKeys()
+	var leaves []string
+	for _, k := range keys {
+		raw, _ := env.Blob.Raw(k)
+		isRoot := len(raw)%64 == 0 && len(raw) >= 64
+		if isRoot {
+			// a blob made of 64-byte keys whose last key is its own name is a root blob
+			if hex.EncodeToString(raw[len(raw)-64:]) == k {
+				continue
+			}
+		}
+		leaves = append(leaves, k)
+	}
+	for f := 0; f < 4 && len(leaves) > 0; f++ {
+		work := c06Clone(env)
+		k := leaves[r.Intn(len(leaves))]
+		cur, _ := work.Blob.Raw(k)
+		desc := ""
+		switch r.Intn(4) {
+		case 0, 1:
+			bit := r.Intn(len(cur) * 8)
+			nb := append([]byte(nil), cur...)
+			nb[bit/8] ^= 1 << uint(bit%8)
+			work.Blob.SetRaw(k, nb)
+			desc = "flip"
+		case 2:
+			work.Blob.SetRaw(k, cur[:r.Intn(len(cur))])
+			desc = "trunc"
+		default:
+			work.Blob.RemoveRaw(k)
+			desc = "delete"
+		}
+		c.w.Count("download-fault=" + desc)
+		for _, dstKind := range []string{"mem", "fs"} {
+			var got map[string][]byte
+			var derr error
+			if dstKind == "mem" {
+				got, _, derr = corekit.Download(work.Stores, "r", id)
+			} else {
+				dir := filepath.Join(os.Getenv("VERIF_WORK"), fmt.Sprintf("c03-%d-%d-%d", c.seed, i, f))
+				_ = os.MkdirAll(dir, 0o755)
+				dst := localfs.New(afero.NewBasePathFs(afero.NewOsFs(), dir), localfs.WithRetry(false))
+				b := corekit.NewBundle(work.Stores, "r", dst, 0, id)
+				derr = corekit.Recover(func() error { return core.Publish(context.Background(), b) })
+				// a failed Publish returns while the downloads of other files are still in flight:
+				// let them finish (two identical snapshots in a row) before judging the destination
+				got = c04ReadDir(dir)
+				for tries := 0; tries < 40; tries++ {
+					time.Sleep(50 * time.Millisecond)
+					again := c04ReadDir(dir)
+					same := len(again) == len(got)
+					for k, v := range again {
+						if string(got[k]) != string(v) {
+							same = false
+						}
+					}
+					got = again
+					if same {
+						break
+					}
+				}
+				_ = os.RemoveAll(dir)
+			}
+			st := "ok"
+			if derr != nil {
+				st = "err"
+			}
+			var dest []string
+			for _, n := range corekit.SortedNames(got) {
+				dest = append(dest, n+"@"+cafsH256(got[n]))
+			}
+			c.w.Op(fmt.Sprintf("dlobs dst=%s fault=%s tree=%s st=%s dest=%s", dstKind, desc, strings.Join(spec, ";"), st, strings.Join(dest, ";")), "sound")
+		}
+	}
+	c.w.End()
 }
